@@ -264,6 +264,7 @@ func (t *Object) metaMatch(rt reflect.Type) (match bool, bound bool) {
 func (t *Object) metaCheck(rt reflect.Type) (reflect.Type, error) {
 	t.mu.Lock()
 	defer t.mu.Unlock()
+	verifPoint("mc_read", t)
 	if t.meta == nil {
 		bt := rt
 		for bt.Kind() == reflect.Ptr {
@@ -279,10 +280,12 @@ func (t *Object) metaCheck(rt reflect.Type) (reflect.Type, error) {
 				if s == bt.PkgPath()+"."+bt.Name() ||
 					s == bt.String() ||
 					s == bt.Name() {
+					verifPoint("mc_write", t)
 					t.meta = rt
 				}
 			}
 		} else if t.N == bt.Name() { // If no @go directive then try using the GraphQL type name.
+			verifPoint("mc_write", t)
 			t.meta = rt
 		}
 	}
